@@ -276,6 +276,56 @@ def op_dictrt(t):
     return "ok " + enc_val(out)
 
 
+MODEL_NAME = {"parent": "ParentModel"}
+
+
+def _model_class(cls):
+    L = lib()
+    if cls == "parent":
+        return L["M"].ParentModel
+    return L["MODEL"][cls][0]
+
+
+def op_schema(t):
+    import marshmallow
+    cls, mode = t.next(), t.next()
+    d = t.val()
+    if mode == "rt":
+        o = lib()["CLS"][cls].from_dict(d)
+        d = o.to_dict(export_parent=True) if cls == "ac" else o.to_dict()
+    try:
+        _model_class(cls).Schema().load(jd(d))
+    except marshmallow.ValidationError:
+        return "ok reject"
+    return "ok accept"
+
+
+def op_schemafields(t):
+    cls = t.next()
+    fs = _model_class(cls).Schema().fields
+    return "ok " + " ".join([str(len(fs))] + [f"{enc_str(k)} {'T' if f.required else 'F'} {'T' if f.allow_none else 'F'}"
+                                              for k, f in fs.items()])
+
+
+def op_digest2(t):
+    t.next()
+    cls = t.next()
+    d1 = t.val()
+    assert t.next() == "|"
+    d2 = t.val()
+    out = []
+    for d in (d1, d2):
+        with Recorder(cls) as rec:
+            o = lib()["CLS"][cls].from_dict(d)
+        if not rec.calls:
+            return "ok no-digest-call"
+        toks = tokens_of(*rec.calls[-1])
+        if md5_uuid(toks) != o.guid:
+            return "ok viol guid-is-not-md5-of-stream"
+        out.append(o.guid.hex + " " + show_strs(toks))
+    return "ok " + " | ".join(out)
+
+
 def op_digest(t):
     cls = t.next()
     d = t.val()
@@ -669,7 +719,7 @@ def op_sweep(t):
 
 
 OPS = {"tokens": op_tokens, "tokeq": op_tokeq, "qexport": op_qexport, "vcollide": op_vcollide, "dictrt": op_dictrt,
-       "digest": op_digest, "obj": op_obj, "sweep": op_sweep, "pickleleaf": op_pickleleaf, "dumpobj": op_dumpobj}
+       "digest": op_digest, "digest2": op_digest2, "schema": op_schema, "schemafields": op_schemafields, "obj": op_obj, "sweep": op_sweep, "pickleleaf": op_pickleleaf, "dumpobj": op_dumpobj}
 
 
 def impl_serial_op(line):
